@@ -1362,6 +1362,24 @@ func genSubScenario(r *rand.Rand, sc int, profile string) subScenario {
 				ph.Writers[c[0].(string)][c[1].(int)].AtWalk = true
 			}
 		}
+		if profile == "remove" {
+			// a removed target may come back: its writer adds it again after everything else it does in this phase
+			// and goes on updating it (what was registered for the old target must not see any of that)
+			for _, t := range s.Targets {
+				removed := false
+				for _, o := range ph.Writers[t] {
+					removed = removed || o.Op == "Remove"
+				}
+				if removed && r.Intn(2) == 0 {
+					ph.Writers[t] = append(ph.Writers[t], cacheOp{Op: "Add", T: t, Now: atomic.AddInt64(&subClock, 3)})
+					for _, o := range genSubWriterOps(r, t, 2+r.Intn(4), "stream") {
+						if o.Op != "Remove" {
+							ph.Writers[t] = append(ph.Writers[t], o)
+						}
+					}
+				}
+			}
+		}
 		s.Phases = append(s.Phases, ph)
 	}
 	if profile == "stall" {
